@@ -43,8 +43,9 @@ def swap_then_notify(ctx, repo, cname):
     if len(prevs) != 1:
         return
     prev = prevs[0].ast.targets[0].id
-    # the new block = old[0:off] + seg + old[off+len(seg):]
-    v = S.ast.value
+    # the new block = old[0:off] + seg + old[off+len(seg):]   (local aliases such as
+    # `previous_block = self._block` expanded first)
+    v = g.expand(S.ast.value, at=S)
     parts = []
 
     def flat(e):
@@ -132,7 +133,11 @@ def decision(ctx, repo):
            f"{fi.qual}: _on_change is not guarded by old != new (guards {sorted(facts)}): unchanged items would notify", loc(fi, N.ast),
            sample={"rule": "R3", "function": fi.qual, "guards": sorted(map(str, facts)), "args": args})
     # and nothing else suppresses it: the only guards are the intersection filter and the equality
-    extra = [(n.text(), l) for n, l in g.guards(N) if "intersection" not in n.text() and not (oldv in n.text() and newv in n.text())]
+    # guards evaluated BEFORE the decode are the byte-range filter (its soundness is R4's job,
+    # decided by interpretation); only guards after the decode could suppress a real change
+    decodes = [d for d in (od + nd)]
+    extra = [(n.text(), l) for n, l in g.guards(N)
+             if any(g.dom(d, n) for d in decodes) and not (oldv in n.text() and newv in n.text())]
     ctx.ob("R3", f"{key}::no-other-suppression", not extra, f"{fi.qual}: notification additionally suppressed by {extra}", loc(fi, N.ast))
     # order: both values read before the call, no writes in between
     return fi
